@@ -57,11 +57,11 @@ theorem start_live_length (pre k : Nat) : (Heap.start pre k).live.length = pre :
 
 /-- **The leak of the iterator constructor, exactly**: if the fault hits one of the `n` element
 copies (events `2 … n+1`), the two arrays and the `k - 2` elements already built stay allocated. -/
-theorem cotreeIter_leaks (n pre k : Nat) (h2 : 2 ≤ k) (hk : k < n + 2) :
-    (Run.cotreeIter n pre k).thrown = true ∧ (Run.cotreeIter n pre k).live.length = pre + k
-      ∧ (Run.cotreeIter n pre k).bad = 0 := by
+theorem cotreeIterAsWritten_leaks (n pre k : Nat) (h2 : 2 ≤ k) (hk : k < n + 2) :
+    (Run.cotreeIterAsWritten n pre k).thrown = true ∧ (Run.cotreeIterAsWritten n pre k).live.length = pre + k
+      ∧ (Run.cotreeIterAsWritten n pre k).bad = 0 := by
   have hn : n ≠ 0 := by omega
-  unfold Run.cotreeIter cotreeIter cotInit
+  unfold Run.cotreeIterAsWritten cotreeIterAsWritten cotInit
   simp only [hn, if_false]
   rw [alloc_ok (by right; simp [Heap.start]; omega)]
   simp only
@@ -97,9 +97,9 @@ theorem cotInit_throws_lt2 (n pre k : Nat) (hn : n ≠ 0) (hk : k < 2) :
     rw [alloc_fail (by simp [Heap.start]) (by simp [Heap.start])]
 
 /-- After the last event nothing can fail. -/
-theorem cotreeIter_not_thrown (n pre k : Nat) (hk : n + 2 ≤ k) :
-    (Run.cotreeIter n pre k).thrown = false := by
-  unfold Run.cotreeIter cotreeIter cotInit
+theorem cotreeIterAsWritten_not_thrown (n pre k : Nat) (hk : n + 2 ≤ k) :
+    (Run.cotreeIterAsWritten n pre k).thrown = false := by
+  unfold Run.cotreeIterAsWritten cotreeIterAsWritten cotInit
   by_cases hn : n = 0
   · simp [hn, Outcome.ofHeap]
   · simp only [hn, if_false]
